@@ -169,6 +169,15 @@ func checkC29(r *core.Run, p *core.Program) {
 					// tested against nil with a leaving branch, after the call
 					handled := false
 					ast.Inspect(f.Decl.Body, func(n ast.Node) bool {
+						// `switch { …; case err != nil: raise }`
+						if cc, isCase := n.(*ast.CaseClause); isCase && cc.End() >= call.Pos() && len(cc.List) == 1 {
+							if be, ok := stripParens(cc.List[0]).(*ast.BinaryExpr); ok && be.Op == token.NEQ && objOf(info, be.X) == errObj && isNilExpr(info, be.Y) {
+								if a.alwaysPanics(info, cc.Body) || raisesOrReturns(a, info, cc.Body, errObj) {
+									handled = true
+								}
+							}
+							return true
+						}
 						ifs, ok := n.(*ast.IfStmt)
 						if !ok || ifs.End() < call.Pos() {
 							return true
